@@ -330,6 +330,131 @@ theorem active_tuples_bounded_partial (p : TVD) (hac : p.ac ≤ 65535) (coords :
   simp only [ht]
   exact congrArg some hl
 
+/-- **`Cvar::deltas` never indexes outside the caller's buffer**: whatever the table says, the buffer
+that comes back has the length that went in (`deltas.get_mut(ix)` skips positions beyond it); the two
+nested loops run over the (bounded) active tuples and their (bounded) deltas. -/
+theorem cvar_deltas_buffer (d : List Nat) (ac : Nat) (coords : List Int) (buf out : List Int)
+    (h : cvarDeltas d ac coords buf = .ok out) : out.length = buf.length := by
+  unfold cvarDeltas at h
+  split at h
+  · cases h
+  · cases h
+  · rename_i p _
+    split at h
+    · cases h
+    · cases h
+    · cases h
+    · exact cvarDeltasLoop_length p _ buf out h
+
+/-- **`Cvar::deltas` panics only if a C20 kernel traps** (`…_partial`): with C20's `tupleScalar_no_trap`
+(`hk`), the `i32` range of its results (`hks`, C20 `tupleScalar_range`) and `fxMul_no_trap` (`hm`), the
+call returns `Ok` or a `ReadError` for every table, axis count, coordinates and buffer. -/
+theorem cvar_deltas_no_panic_partial (d : List Nat) (hb : Bytes d) (ac : Nat) (hac : ac ≤ 65535)
+    (coords : List Int) (buf : List Int)
+    (hk : ∀ (pk : List Int) (inter : Option (List Int × List Int)), (∀ c ∈ pk, I16 c) →
+      (∀ q, inter = some q → (∀ c ∈ q.1, I16 c) ∧ (∀ c ∈ q.2, I16 c)) →
+      (Checked.tupleScalar pk inter coords).isSome)
+    (hks : ∀ (pk : List Int) (inter : Option (List Int × List Int)) (v : Int),
+      Checked.tupleScalar pk inter coords = some (some v) → I32 v)
+    (hm : ∀ a b, I32 a → I32 b → (Checked.fxMul a b).isSome) :
+    cvarDeltas d ac coords buf ≠ .trap := by
+  obtain ⟨h1, _, h3⟩ := cvarVariationData_facts d ac
+  unfold cvarDeltas
+  cases hp : cvarVariationData d ac with
+  | trap => exact absurd hp h1
+  | err e => simp
+  | ok p =>
+    simp only []
+    obtain ⟨hpa, hsh, hhd, _, _, _, _⟩ := h3 p hp
+    have hac' : p.ac ≤ 65535 := by omega
+    have hbh : Bytes p.headerData := by
+      rw [hhd]; intro b hbm; exact hb b (List.mem_of_mem_drop hbm)
+    obtain ⟨evs, l, he, hl, _, hmem⟩ := active_tuples_bounded_partial p hac' coords hbh
+      (by intro sd hsd; rw [hsh] at hsd; cases hsd) hk
+    rw [hl]
+    simp only []
+    obtain ⟨_, _, _, _, _, _, _, hall⟩ := tuples_iter_bounded p hac'
+    -- the loop: every tuple's deltas are bounded and trap free, every scalar is an i32
+    have key : ∀ (l' : List (TV × Int)), (∀ x ∈ l', x ∈ l) → ∀ b : List Int, cvarDeltasLoop p l' b ≠ .trap := by
+      intro l'
+      induction l' with
+      | nil => intro _ b; simp [cvarDeltasLoop]
+      | cons x r ih =>
+        intro hsub b
+        obtain ⟨t, sc⟩ := x
+        obtain ⟨htm, hcs⟩ := hmem (t, sc) (hsub (t, sc) (by simp))
+        obtain ⟨evs', he', _, _, _, _, _, hall'⟩ := tuples_iter_bounded p hac'
+        rw [he] at he'
+        injection he' with he'
+        subst he'
+        obtain ⟨d', hr, _⟩ := hall' t htm
+        obtain ⟨dv, hdv, _, hdt⟩ := tuple_deltas_bounded p t d' hac' hr false
+        have hsc : I32 sc := by
+          obtain ⟨pk, inter, hts⟩ := computeScalar_some_src p t coords sc hcs
+          exact hks pk inter sc hts
+        unfold cvarDeltasLoop
+        rw [hdv]
+        simp only [hdt]
+        obtain ⟨out, hout⟩ := applyCvtAll_some hm sc hsc (items dv) b
+        rw [hout]
+        exact ih (fun y hy => hsub y (by simp [hy])) out
+    exact key l (fun _ h => h) buf
+
+/-! ## `Gvar` -/
+
+/-- **the unwrapping getters of a read `Gvar` never panic** and `read` validated the whole offsets
+array: `20 + (glyph_count + 1) · (2 | 4) ≤ len` -/
+theorem gvar_getters_safe (d : List Nat) (g : Gv) (hb : Bytes d) (hr : gvarRead d = some g) :
+    g.axisCount.isSome ∧ g.sharedTupleCount.isSome ∧ g.sharedTuplesOffset.isSome ∧ g.glyphCount.isSome ∧
+    g.flags.isSome ∧ g.dao.isSome ∧ 20 + g.offsLen ≤ d.length := by
+  obtain ⟨⟨_, h1, _⟩, ⟨_, h2, _⟩, ⟨_, h3⟩, ⟨_, h4⟩, ⟨_, h5, _⟩, ⟨_, h6⟩⟩ := gvar_getters hb hr
+  obtain ⟨_, hl, _⟩ := gvarRead_some hb hr
+  simp [h1, h2, h3, h4, h5, h6, hl]
+
+/-- **`shared_tuples()` and `data_for_gid()` never panic and hand out slices inside the table**: errors
+are `OutOfBounds` / `NullOffset`; the shared tuple array is `table[off .. off + n]`, a glyph's data is the
+non-empty range `table[s .. e]` with `e ≤ len` (the two `u32::checked_add`s and `slice` guard it),
+for every glyph id. -/
+theorem gvar_slices_in_bounds (d : List Nat) (g : Gv) (hb : Bytes d) (hr : gvarRead d = some g) (gid : Nat) :
+    g.sharedTuples ≠ .trap ∧
+    (∀ sd, g.sharedTuples = .ok sd → ∃ off n, sd = (d.drop off).take n ∧ off + n ≤ d.length) ∧
+    g.dataForGid gid ≠ .trap ∧
+    (∀ bytes, g.dataForGid gid = .ok (some bytes) →
+      ∃ s e, s < e ∧ e ≤ d.length ∧ bytes = (d.drop s).take (e - s)) := by
+  obtain ⟨h1, _, h3⟩ := sharedTuples_facts hb hr
+  obtain ⟨g1, _, g3⟩ := dataForGid_facts hb hr gid
+  exact ⟨h1, h3, g1, fun bytes hbt => by obtain ⟨s, e, a, b, c, _⟩ := g3 bytes hbt; exact ⟨s, e, a, b, c⟩⟩
+
+/-- **the whole gvar glyph walk is safe**: for every table, glyph id and coordinates, `Gvar::read` +
+`glyph_variation_data(gid)` + `tuples()` either fail with `OutOfBounds` / `NullOffset`, answer `None`, or
+yield at most `min(count & 0x0FFF, len / 4)` tuples, each with a successfully read header (accessors
+safe) and a bounded, panic free `deltas()`. -/
+theorem gvar_walk_safe (d : List Nat) (g : Gv) (hb : Bytes d) (hr : gvarRead d = some g) (gid : Nat) :
+    g.glyphVariationData gid ≠ .trap ∧
+    (∀ e, g.glyphVariationData gid = .err e → e = .oob ∨ e = .nullOffset) ∧
+    ∀ p, g.glyphVariationData gid = .ok (some p) →
+      ∃ evs, tvTrace p = some evs ∧ trapped evs = false ∧ evs.length ≤ 4095 ∧
+        4 * (items evs).length ≤ d.length ∧
+        ∀ t ∈ items evs, (∃ d', tvhRead d' p.ac = some t.hdr) ∧ t.varData.length ≤ d.length ∧
+          ∃ dv, t.deltasTrace p true = some dv ∧ dv.length ≤ 128 * d.length + 131204 ∧ trapped dv = false := by
+  obtain ⟨h1, h2, h3⟩ := glyphVariationData_facts hb hr gid
+  refine ⟨h1, h2, ?_⟩
+  intro p hp
+  obtain ⟨hac, _, bytes, shared, hnew, hbl, _, _⟩ := h3 p hp
+  obtain ⟨_, _, hok⟩ := gvdNew_facts bytes p.ac shared
+  obtain ⟨_, _, hhd, _, hser, _, _⟩ := hok p hnew
+  obtain ⟨evs, he, hl, hc, ht, h4, hsum, hall⟩ := tuples_iter_bounded p hac
+  refine ⟨evs, he, ht, by omega, ?_, ?_⟩
+  · rw [hhd] at h4; simp only [List.length_drop] at h4; omega
+  · intro t htm
+    obtain ⟨d', hrd, _⟩ := hall t htm
+    have hvl : t.varData.length ≤ p.ser.length := by
+      have := mem_le_sum ((items evs).map (fun t => t.varData.length)) t.varData.length
+        (List.mem_map.mpr ⟨t, htm, rfl⟩)
+      omega
+    obtain ⟨dv, k1, k2, k3⟩ := tuple_deltas_bounded p t d' hac hrd true
+    exact ⟨⟨d', hrd⟩, by omega, dv, k1, by omega, k3⟩
+
 /-! ## non-vacuity -/
 
 /-- an embedded peak + intermediate header for one axis: 4 + 2 + 4 bytes -/
@@ -353,5 +478,33 @@ def exCvarWalk : Option (List (List Int × List (Nat × Int × Int))) :=
   | _ => none
 
 example : exCvarWalk = some [([16384], [(0, 5, 0), (1, 6, 0)])] := by decide +kernel
+
+/-- a one-glyph gvar (long offsets, one axis, one shared tuple): the glyph's tuple refers to shared
+tuple 0 and carries deltas for "all points" -/
+def exGvar : List Nat :=
+  [0, 1, 0, 0, 0, 1, 0, 1, 0, 0, 0, 28, 0, 1, 0, 1, 0, 0, 0, 30,
+   0, 0, 0, 0, 0, 0, 0, 12,
+   0x40, 0,
+   0, 1, 0, 8, 0, 4, 0, 0, 0, 1, 1, 3]
+
+def exGvarWalk : Option (List (List Int × List (Nat × Int × Int))) :=
+  match gvarRead exGvar with
+  | none => none
+  | some g =>
+    match g.glyphVariationData 0 with
+    | .ok (some p) => (tvTrace p).map (fun evs => (items evs).map (fun t =>
+        ((t.peak p).getD [], ((t.deltasTrace p true).map items).getD [])))
+    | _ => none
+
+example : exGvarWalk = some [([16384], [(0, 1, 3)])] := by decide +kernel
+
+/-- glyph 0 has 12 bytes of data, glyph 1 is beyond the offsets array: `Err(OutOfBounds)` -/
+example : (gvarRead exGvar).map (fun g =>
+    (match g.dataForGid 0 with | .ok (some b) => b.length | _ => 0,
+     match g.dataForGid 1 with | .err .oob => true | _ => false)) = some (12, true) := by
+  decide +kernel
+
+/-- the byte hypothesis is satisfiable -/
+example : Bytes exGvar := by unfold Bytes; decide
 
 end FontVerif.C01HandVar
